@@ -14,6 +14,7 @@ for ALL index counts `n`, all signed permutation groups `G` and all dimension li
 * (D) `row_invariant`                       every row is a `G`-invariant tensor
 * (E) `rows_complete`                       every `G`-invariant tensor is a combination of the rows
 * (F) `support_iff`                         the rows cover exactly the non-cancelling orbits
+* (G) `reducePermutation_dims`              a successful dimension bookkeeping loop yields `DimsCompatible` dims
 -/
 namespace E3nnVerif.ReduceModel
 open E3nnVerif.PermModel
@@ -552,6 +553,446 @@ theorem rows_complete (hG : IsSignedGroup n G) (hd : dims.length = n) (hc : Dims
         · exact hD e he (ε, x) hmem e2
       rw [coef_of_not_mem this, mul_zero]
 
+theorem sum_indicator {α : Type} (l : List α) (p : α → Prop) [DecidablePred p] :
+    (l.map fun x => if p x then (1 : ℤ) else 0).sum = ((l.filter fun x => decide (p x)).length : ℤ) := by
+  induction l with
+  | nil => rfl
+  | cons a l ih =>
+    rw [List.map_cons, List.sum_cons, ih]
+    by_cases h : p a
+    · rw [if_pos h, List.filter_cons_of_pos (by simpa using h), List.length_cons]
+      push_cast
+      ring
+    · rw [if_neg h, List.filter_cons_of_neg (by simpa using h), zero_add]
+
+/-- (B) the squared entries of a row sum to its length: after the normalisation by `1/sqrt(len r)` the
+    row of `Q` has norm one -/
+theorem coef_sq_sum (hG : IsSignedGroup n G) (hd : dims.length = n) (hc : DimsCompatible G dims) :
+    ∀ r ∈ reduceCore G dims, ((fullBase dims).map fun x => coef r x ^ 2).sum = r.length := by
+  intro r hr
+  obtain ⟨-, hent, hn⟩ := row_entries hG hd hc r hr
+  have e1 : ((fullBase dims).map fun x => coef r x ^ 2) =
+      (fullBase dims).map fun x => if x ∈ r.map (·.2) then (1 : ℤ) else 0 := by
+    apply List.map_congr_left
+    intro x _
+    by_cases hx : x ∈ r.map (·.2)
+    · rw [if_pos hx]
+      obtain ⟨e, he, rfl⟩ := List.mem_map.1 hx
+      rw [coef_of_mem hn he]
+      rcases (hent e he).1 with h | h <;> rw [h] <;> norm_num
+    · rw [if_neg hx, coef_of_not_mem (fun e he e2 => hx (List.mem_map.2 ⟨e, he, e2⟩))]
+      norm_num
+  rw [e1, sum_indicator]
+  have hp : ((fullBase dims).filter fun x => decide (x ∈ r.map (·.2))).Perm (r.map (·.2)) := by
+    rw [List.perm_ext_iff_of_nodup ((nodup_fullBase dims).filter _) hn]
+    intro x
+    rw [List.mem_filter, decide_eq_true_eq]
+    constructor
+    · exact fun h => h.2
+    · intro h
+      refine ⟨?_, h⟩
+      obtain ⟨e, he, rfl⟩ := List.mem_map.1 h
+      exact (hent e he).2
+  rw [hp.length_eq, List.length_map]
+
 end Group
+
+/-! ### (G) the dimension bookkeeping loop -/
+
+theorem dGet_nil (c : Char) : dGet [] c = none := rfl
+
+theorem dGet_cons (e : Char × ℕ) (d : Dims) (c : Char) :
+    dGet (e :: d) c = if e.1 = c then some e.2 else dGet d c := by
+  unfold dGet
+  rw [List.find?_cons]
+  by_cases h : e.1 = c
+  · simp [h]
+  · have : (e.1 == c) = false := by simpa using h
+    simp [this, h]
+
+theorem dGet_append (d₁ d₂ : Dims) (c : Char) : dGet (d₁ ++ d₂) c = (dGet d₁ c).or (dGet d₂ c) := by
+  induction d₁ with
+  | nil => simp [dGet_nil]
+  | cons e d ih =>
+    rw [List.cons_append, dGet_cons, dGet_cons, ih]
+    split_ifs <;> simp
+
+theorem any_key (d : Dims) (c : Char) : (d.any fun e => e.1 == c) = (dGet d c).isSome := by
+  induction d with
+  | nil => rfl
+  | cons e d ih =>
+    rw [List.any_cons, dGet_cons, ih]
+    by_cases h : e.1 = c <;> simp [h]
+
+theorem dGet_map_set (d : Dims) (c c' : Char) (v : ℕ) :
+    dGet (d.map fun e => if e.1 == c then (c, v) else e) c' =
+      if c' = c then (dGet d c).map (fun _ => v) else dGet d c' := by
+  induction d with
+  | nil => simp [dGet_nil]
+  | cons e d ih =>
+    rw [List.map_cons, dGet_cons, ih, dGet_cons, dGet_cons]
+    by_cases h1 : e.1 = c <;> by_cases h2 : c' = c
+    · subst h1; subst h2; simp
+    · subst h1; simp [h2, Ne.symm h2]
+    · subst h2; simp [h1]
+    · simp [h1, h2]
+
+theorem dGet_dSet (d : Dims) (c c' : Char) (v : ℕ) :
+    dGet (dSet d c v) c' = if c' = c then some v else dGet d c' := by
+  unfold dSet
+  rw [any_key]
+  cases h : dGet d c with
+  | none =>
+    simp only [Option.isSome_none, Bool.false_eq_true, if_false]
+    rw [dGet_append, dGet_cons, dGet_nil]
+    by_cases h2 : c' = c
+    · subst h2; simp [h]
+    · simp [h2, Ne.symm h2]
+  | some w =>
+    simp only [Option.isSome_some, if_true]
+    rw [dGet_map_set, h]
+    simp
+
+/-- successful step of the inner loop: the two dimensions do not conflict, and afterwards both indices carry
+    the dimension that was known for one of them; nothing else changes -/
+theorem dimsPair_ok {d d' : Dims} {i j : Char} (h : dimsPair d (i, j) = .ok d') :
+    (∀ a b, dGet d i = some a → dGet d j = some b → a = b) ∧
+    ∀ c, dGet d' c = if c = i ∨ c = j then (dGet d i).or (dGet d j) else dGet d c := by
+  unfold dimsPair at h
+  simp only at h
+  cases hi : dGet d i with
+  | none =>
+    cases hj : dGet d j with
+    | none =>
+      rw [hi, hj] at h
+      simp only [Except.ok.injEq] at h
+      subst h
+      refine ⟨fun a b h1 => (by cases h1), fun c => ?_⟩
+      split_ifs with hc
+      · rcases hc with rfl | rfl
+        · rw [hi]; rfl
+        · rw [hj]; rfl
+      · rfl
+    | some b =>
+      rw [hi, hj] at h
+      simp only [Except.ok.injEq] at h
+      subst h
+      refine ⟨fun a b h1 => (by cases h1), fun c => ?_⟩
+      rw [dGet_dSet]
+      by_cases h1 : c = i
+      · simp [h1]
+      · by_cases h2 : c = j
+        · simp [h2, hj]
+        · simp [h1, h2]
+  | some a =>
+    cases hj : dGet d j with
+    | none =>
+      rw [hi, hj] at h
+      simp only [Except.ok.injEq] at h
+      subst h
+      refine ⟨fun a b _ h2 => (by cases h2), fun c => ?_⟩
+      rw [dGet_dSet, dGet_dSet]
+      by_cases h1 : c = i
+      · simp [h1]
+      · by_cases h2 : c = j
+        · simp [h2]
+        · simp [h1, h2]
+    | some b =>
+      rw [hi, hj] at h
+      simp only at h
+      by_cases hab : a = b
+      · subst hab
+        simp only [bne_self_eq_false, Bool.false_eq_true, if_false, Except.ok.injEq] at h
+        subst h
+        refine ⟨fun a' b' h1 h2 => (by cases h1; cases h2; rfl), fun c => ?_⟩
+        rw [dGet_dSet, dGet_dSet]
+        by_cases h1 : c = i
+        · simp [h1]
+        · by_cases h2 : c = j
+          · simp [h2]
+          · simp [h1, h2]
+      · have : (a != b) = true := by simpa using hab
+        rw [this] at h
+        simp at h
+
+theorem dimsPairs_nil (d : Dims) : dimsPairs d [] = .ok d := rfl
+
+theorem dimsPairs_cons (d : Dims) (ij : Char × Char) (L : List (Char × Char)) :
+    dimsPairs d (ij :: L) = match dimsPair d ij with
+      | .error e => .error e
+      | .ok d' => dimsPairs d' L := rfl
+
+theorem dimsPairs_append (d : Dims) (L₁ L₂ : List (Char × Char)) :
+    dimsPairs d (L₁ ++ L₂) = match dimsPairs d L₁ with
+      | .error e => .error e
+      | .ok d' => dimsPairs d' L₂ := by
+  induction L₁ generalizing d with
+  | nil => rfl
+  | cons ij L ih =>
+    rw [List.cons_append, dimsPairs_cons, dimsPairs_cons]
+    cases dimsPair d ij with
+    | error e => rfl
+    | ok d' => exact ih d'
+
+/-- the double loop of `reduce_permutation` is one loop over the concatenated pairs -/
+theorem dimsLoop_eq (f0 : List Char) (d : Dims) (G : List SPerm) :
+    dimsLoop f0 d G =
+      dimsPairs d (G.flatMap fun a => f0.zip (a.2.map fun i => f0.getD i ' ')) := by
+  induction G generalizing d with
+  | nil => rfl
+  | cons a G ih =>
+    obtain ⟨s, p⟩ := a
+    rw [List.flatMap_cons, dimsPairs_append]
+    show (match dimsPairs d (f0.zip (p.map fun i => f0.getD i ' ')) with
+      | .error e => .error e
+      | .ok d' => dimsLoop f0 d' G : Except Err Dims) = _
+    cases dimsPairs d (f0.zip (p.map fun i => f0.getD i ' ')) with
+    | error e => rfl
+    | ok d' => exact ih d'
+
+/-- `d'` extends `d`: dimensions, once known, never change -/
+def DLe (d d' : Dims) : Prop := ∀ c v, dGet d c = some v → dGet d' c = some v
+
+theorem DLe.refl (d : Dims) : DLe d d := fun _ _ h => h
+theorem DLe.trans {d₁ d₂ d₃ : Dims} (h1 : DLe d₁ d₂) (h2 : DLe d₂ d₃) : DLe d₁ d₃ :=
+  fun c v h => h2 c v (h1 c v h)
+
+theorem dimsPair_le {d d' : Dims} {i j : Char} (h : dimsPair d (i, j) = .ok d') : DLe d d' := by
+  obtain ⟨h1, h2⟩ := dimsPair_ok h
+  intro c v hc
+  rw [h2]
+  split_ifs with hij
+  · rcases hij with rfl | rfl
+    · rw [hc]; rfl
+    · cases hi : dGet d i with
+      | none => rw [hc]; rfl
+      | some a => rw [h1 a v hi hc]; rfl
+  · exact hc
+
+/-- a successful run of the loop only extends `d`, and no processed pair had conflicting dimensions in `d` -/
+theorem dimsPairs_spec {L : List (Char × Char)} {d d' : Dims} (h : dimsPairs d L = .ok d') :
+    DLe d d' ∧ ∀ ij ∈ L, ∀ a b, dGet d ij.1 = some a → dGet d ij.2 = some b → a = b := by
+  induction L generalizing d with
+  | nil =>
+    rw [dimsPairs_nil] at h
+    cases h
+    exact ⟨DLe.refl _, fun _ h => by cases h⟩
+  | cons ij L ih =>
+    rw [dimsPairs_cons] at h
+    cases h1 : dimsPair d ij with
+    | error e => rw [h1] at h; cases h
+    | ok d₁ =>
+      rw [h1] at h
+      simp only at h
+      obtain ⟨i, j⟩ := ij
+      have hle := dimsPair_le h1
+      obtain ⟨ih1, ih2⟩ := ih h
+      refine ⟨hle.trans ih1, ?_⟩
+      intro kl hkl a b ha hb
+      rcases List.mem_cons.1 hkl with rfl | hkl
+      · exact (dimsPair_ok h1).1 a b ha hb
+      · exact ih2 kl hkl a b (hle _ _ ha) (hle _ _ hb)
+
+/-- indices related by `E` have the same dimension (as far as both are known) -/
+def DConsistent (E : Char → Char → Prop) (d : Dims) : Prop :=
+  ∀ c c' a b, E c c' → dGet d c = some a → dGet d c' = some b → a = b
+
+theorem or_eq_some {o₁ o₂ : Option ℕ} {a : ℕ} (h : o₁.or o₂ = some a) : o₁ = some a ∨ o₂ = some a := by
+  cases o₁ with
+  | none => right; simpa using h
+  | some v => left; simpa using h
+
+theorem dimsPair_consistent {E : Char → Char → Prop} (hs : ∀ u v, E u v → E v u)
+    (ht : ∀ u v w, E u v → E v w → E u w) {d d' : Dims} {i j : Char} (hij : E i j)
+    (h : dimsPair d (i, j) = .ok d') (hJ : DConsistent E d) : DConsistent E d' := by
+  obtain ⟨hno, hd'⟩ := dimsPair_ok h
+  have hpair : ∀ u v, (u = i ∨ u = j) → (v = i ∨ v = j) → u ≠ v → E u v := by
+    rintro u v (rfl | rfl) (rfl | rfl) hne
+    · exact absurd rfl hne
+    · exact hij
+    · exact hs _ _ hij
+    · exact absurd rfl hne
+  have hsrc : ∀ a, (dGet d i).or (dGet d j) = some a → ∃ w, (w = i ∨ w = j) ∧ dGet d w = some a := by
+    intro a ha
+    rcases or_eq_some ha with h1 | h1
+    · exact ⟨i, Or.inl rfl, h1⟩
+    · exact ⟨j, Or.inr rfl, h1⟩
+  intro c c' a b hE h1 h2
+  rw [hd'] at h1 h2
+  by_cases hc : c = i ∨ c = j <;> by_cases hc' : c' = i ∨ c' = j
+  · rw [if_pos hc] at h1
+    rw [if_pos hc', h1] at h2
+    exact Option.some.inj h2
+  · rw [if_pos hc] at h1
+    rw [if_neg hc'] at h2
+    obtain ⟨w, hw, hdw⟩ := hsrc a h1
+    by_cases hwc : w = c
+    · subst hwc; exact hJ _ _ a b hE hdw h2
+    · exact hJ _ _ a b (ht _ _ _ (hpair w c hw hc hwc) hE) hdw h2
+  · rw [if_neg hc] at h1
+    rw [if_pos hc'] at h2
+    obtain ⟨w, hw, hdw⟩ := hsrc b h2
+    by_cases hwc : c' = w
+    · subst hwc; exact hJ _ _ a b hE h1 hdw
+    · exact hJ _ _ a b (ht _ _ _ hE (hpair c' w hc' hw hwc)) h1 hdw
+  · rw [if_neg hc] at h1
+    rw [if_neg hc'] at h2
+    exact hJ _ _ a b hE h1 h2
+
+theorem dimsPairs_consistent {E : Char → Char → Prop} (hs : ∀ u v, E u v → E v u)
+    (ht : ∀ u v w, E u v → E v w → E u w) {L : List (Char × Char)} (hL : ∀ ij ∈ L, E ij.1 ij.2)
+    {d d' : Dims} (h : dimsPairs d L = .ok d') (hJ : DConsistent E d) : DConsistent E d' := by
+  induction L generalizing d with
+  | nil =>
+    rw [dimsPairs_nil] at h
+    cases h
+    exact hJ
+  | cons ij L ih =>
+    rw [dimsPairs_cons] at h
+    cases h1 : dimsPair d ij with
+    | error e => rw [h1] at h; cases h
+    | ok d₁ =>
+      rw [h1] at h
+      simp only at h
+      obtain ⟨i, j⟩ := ij
+      exact ih (fun kl hkl => hL kl (List.mem_cons_of_mem _ hkl)) h
+        (dimsPair_consistent hs ht (hL (i, j) List.mem_cons_self) h1 hJ)
+
+/-- if every pair of `E`-related indices is processed by the loop, a successful run ends in a consistent state -/
+theorem dimsPairs_final_consistent {E : Char → Char → Prop} (hs : ∀ u v, E u v → E v u)
+    (ht : ∀ u v w, E u v → E v w → E u w) {L : List (Char × Char)}
+    (hL : ∀ ij : Char × Char, ij ∈ L ↔ E ij.1 ij.2)
+    {d d' : Dims} (h : dimsPairs d L = .ok d') : DConsistent E d' := by
+  refine dimsPairs_consistent hs ht (fun ij hij => (hL ij).1 hij) h ?_
+  intro c c' a b hE h1 h2
+  exact (dimsPairs_spec h).2 (c, c') ((hL (c, c')).2 hE) a b h1 h2
+
+/-- the index characters `c`, `c'` of `f0` are exchanged by some group element: `c = f0[k]`, `c' = f0[p[k]]` -/
+def IdxRel (f0 : List Char) (G : List SPerm) (c c' : Char) : Prop :=
+  ∃ a ∈ G, ∃ k, k < f0.length ∧ f0.getD k ' ' = c ∧ f0.getD (a.2.getD k 0) ' ' = c'
+
+theorem getD_char_of_lt {l : List Char} {i : ℕ} (h : i < l.length) : l.getD i ' ' = l[i] := by
+  simp [List.getD_eq_getElem?_getD, h]
+
+theorem mem_zip_iff_getD {f0 : List Char} {p : List ℕ} (hp : p.length = f0.length) {c c' : Char} :
+    (c, c') ∈ f0.zip (p.map fun i => f0.getD i ' ') ↔
+      ∃ k, k < f0.length ∧ f0.getD k ' ' = c ∧ f0.getD (p.getD k 0) ' ' = c' := by
+  rw [List.mem_iff_getElem]
+  constructor
+  · rintro ⟨k, hk, e⟩
+    have hk1 : k < f0.length := by
+      rw [List.length_zip] at hk; omega
+    have hk2 : k < p.length := by omega
+    rw [List.getElem_zip, Prod.mk.injEq, List.getElem_map] at e
+    refine ⟨k, hk1, ?_, ?_⟩
+    · rw [getD_char_of_lt hk1]; exact e.1
+    · rw [getD_of_lt hk2]; exact e.2
+  · rintro ⟨k, hk1, e1, e2⟩
+    have hk2 : k < p.length := by omega
+    refine ⟨k, by rw [List.length_zip, List.length_map]; omega, ?_⟩
+    rw [List.getElem_zip, Prod.mk.injEq, List.getElem_map]
+    refine ⟨?_, ?_⟩
+    · rw [← e1, getD_char_of_lt hk1]
+    · rw [← e2, getD_of_lt hk2]
+
+theorem mem_pairs_iff {f0 : List Char} {G : List SPerm} (hG : IsSignedGroup f0.length G)
+    (ij : Char × Char) :
+    ij ∈ (G.flatMap fun a => f0.zip (a.2.map fun i => f0.getD i ' ')) ↔ IdxRel f0 G ij.1 ij.2 := by
+  obtain ⟨c, c'⟩ := ij
+  rw [List.mem_flatMap]
+  constructor
+  · rintro ⟨a, ha, h⟩
+    exact ⟨a, ha, (mem_zip_iff_getD (hG.isPerm a ha).2).1 h⟩
+  · rintro ⟨a, ha, h⟩
+    exact ⟨a, ha, (mem_zip_iff_getD (hG.isPerm a ha).2).2 h⟩
+
+theorem IdxRel.symm {f0 : List Char} {G : List SPerm} (hG : IsSignedGroup f0.length G)
+    {c c' : Char} (h : IdxRel f0 G c c') : IdxRel f0 G c' c := by
+  obtain ⟨a, ha, k, hk, rfl, rfl⟩ := h
+  obtain ⟨hp, hl⟩ := hG.isPerm a ha
+  have hk' : k < a.2.length := by omega
+  refine ⟨sInv a, hG.inv_mem a ha, a.2.getD k 0, by rw [← hl]; exact hp.getD_lt hk', rfl, ?_⟩
+  show f0.getD ((inverseRaw a.2).getD (a.2.getD k 0) 0) ' ' = _
+  have : (inverseRaw a.2).getD (a.2.getD k 0) 0 = k := by
+    rw [← getD_composeRaw (by simpa using hk'), inverseRaw_composeRaw hp, getD_identity hk']
+  rw [this]
+
+theorem IdxRel.trans {f0 : List Char} {G : List SPerm} (hG : IsSignedGroup f0.length G) (hf : f0.Nodup)
+    {c c' c'' : Char} (h1 : IdxRel f0 G c c') (h2 : IdxRel f0 G c' c'') : IdxRel f0 G c c'' := by
+  obtain ⟨a, ha, k, hk, rfl, rfl⟩ := h1
+  obtain ⟨b, hb, k', hk', e, rfl⟩ := h2
+  obtain ⟨hap, hal⟩ := hG.isPerm a ha
+  obtain ⟨hbp, hbl⟩ := hG.isPerm b hb
+  have hka : k < a.2.length := by omega
+  have hak : a.2.getD k 0 < f0.length := by rw [← hal]; exact hap.getD_lt hka
+  have ek : k' = a.2.getD k 0 := by
+    rw [getD_char_of_lt hk', getD_char_of_lt hak] at e
+    exact (List.Nodup.getElem_inj_iff hf).1 e
+  subst ek
+  refine ⟨sMul b a, hG.mul_mem b hb a ha, k, hk, rfl, ?_⟩
+  show f0.getD ((composeRaw b.2 a.2).getD k 0) ' ' = _
+  rw [getD_composeRaw (by omega)]
+
+/-- (G) when the dimension bookkeeping of `reduce_permutation` succeeds, the resulting `dims` list is
+    compatible with the group: indices exchanged by a group element have the same dimension -/
+theorem reducePermutation_dims {f0 : List Char} {G : List SPerm} {dims0 : Dims} {out : Out}
+    (h : reducePermutation f0 G dims0 = .ok out) (hG : IsSignedGroup f0.length G) (hf : f0.Nodup) :
+    DimsCompatible G out.dims ∧ out.dims.length = f0.length := by
+  unfold reducePermutation at h
+  cases hl : dimsLoop f0 dims0 G with
+  | error e => rw [hl] at h; cases h
+  | ok d =>
+    rw [hl] at h
+    simp only at h
+    by_cases hall : (f0.all fun c => (dGet d c).isSome) = true
+    · rw [hall] at h
+      simp only [Bool.not_true, Bool.false_eq_true, if_false, Except.ok.injEq] at h
+      subst h
+      rw [List.all_eq_true] at hall
+      rw [dimsLoop_eq] at hl
+      have hJ : DConsistent (IdxRel f0 G) d :=
+        dimsPairs_final_consistent (fun _ _ h => h.symm hG) (fun _ _ _ h1 h2 => h1.trans hG hf h2)
+          (mem_pairs_iff hG) hl
+      refine ⟨?_, by simp⟩
+      intro a ha
+      obtain ⟨hp, hal⟩ := hG.isPerm a ha
+      show act (f0.map fun c => (dGet d c).getD 0) a.2 = f0.map fun c => (dGet d c).getD 0
+      have hget : ∀ m, m < f0.length →
+          (f0.map fun c => (dGet d c).getD 0).getD m 0 = (dGet d (f0.getD m ' ')).getD 0 := by
+        intro m hm
+        rw [getD_of_lt (by simpa using hm), List.getElem_map, getD_char_of_lt hm]
+      apply ext_getD (by rw [length_act, List.length_map, hal])
+      intro k hk
+      rw [length_act] at hk
+      have hk' : k < f0.length := by omega
+      have hpk : a.2.getD k 0 < f0.length := by rw [← hal]; exact hp.getD_lt hk
+      rw [getD_act hk, hget _ hpk, hget _ hk']
+      have m1 : f0.getD k ' ' ∈ f0 := by
+        rw [getD_char_of_lt hk']; exact List.getElem_mem _
+      have m2 : f0.getD (a.2.getD k 0) ' ' ∈ f0 := by
+        rw [getD_char_of_lt hpk]; exact List.getElem_mem _
+      obtain ⟨v1, hv1⟩ := Option.isSome_iff_exists.1 (hall _ m1)
+      obtain ⟨v2, hv2⟩ := Option.isSome_iff_exists.1 (hall _ m2)
+      rw [hv1, hv2, hJ _ _ v1 v2 ⟨a, ha, k, hk', rfl, rfl⟩ hv1 hv2]
+    · have : (f0.all fun c => (dGet d c).isSome) = false := by simpa using hall
+      rw [this] at h
+      simp at h
+
+/-! ### the hypotheses are satisfiable: `ij=-ji` with `i, j ∈ range(3)` -/
+
+example : IsSignedGroup 2 [((1 : ℤ), [0, 1]), ((-1 : ℤ), [1, 0])] where
+  one_mem := by decide
+  isPerm := by
+    intro a ha
+    simp only [List.mem_cons, List.not_mem_nil, or_false] at ha
+    rcases ha with rfl | rfl
+    · exact ⟨isPerm_iff.1 (by decide), rfl⟩
+    · exact ⟨isPerm_iff.1 (by decide), rfl⟩
+  sign := by decide
+  inv_mem := by decide
+  mul_mem := by decide
+
+example : DimsCompatible [((1 : ℤ), [0, 1]), ((-1 : ℤ), [1, 0])] [3, 3] := by
+  unfold DimsCompatible; decide
 
 end E3nnVerif.ReduceModel
